@@ -26,6 +26,7 @@ import (
 	"github.com/elastos/Elastos.ELA/account"
 	"github.com/elastos/Elastos.ELA/auxpow"
 	"github.com/elastos/Elastos.ELA/blockchain"
+	"github.com/elastos/Elastos.ELA/blockchain/indexers"
 	"github.com/elastos/Elastos.ELA/common"
 	"github.com/elastos/Elastos.ELA/common/config"
 	"github.com/elastos/Elastos.ELA/common/log"
@@ -41,6 +42,7 @@ import (
 	"github.com/elastos/Elastos.ELA/core/types/payload"
 	crstate "github.com/elastos/Elastos.ELA/cr/state"
 	"github.com/elastos/Elastos.ELA/crypto"
+	"github.com/elastos/Elastos.ELA/database"
 	dplog "github.com/elastos/Elastos.ELA/dpos/log"
 	"github.com/elastos/Elastos.ELA/dpos/state"
 	"github.com/elastos/Elastos.ELA/events"
@@ -100,6 +102,7 @@ type Fixture struct {
 	closed bool
 
 	poolEvents bool
+	hook       *hookDB
 
 	// Events is the log of chain events seen since the caller last reset it
 	// (in the order the node emitted them).
@@ -293,8 +296,56 @@ func New(opt Options) (f *Fixture, err error) {
 		store.Close()
 		return nil, err
 	}
+	if usp := f.unspentIndex(); usp != nil {
+		f.hook = &hookDB{DB: usp.DB}
+		usp.DB = f.hook
+	}
 	cur = f
 	return f, nil
+}
+
+// hookDB wraps the database handle the transaction store (UnspentIndex.FetchTx)
+// reads through, so that a harness can run a chain step right after a
+// reader's database view returned (a reader interleaved with the chain).
+type hookDB struct {
+	database.DB
+	afterView func()
+}
+
+func (h *hookDB) View(fn func(tx database.Tx) error) error {
+	err := h.DB.View(fn)
+	if f := h.afterView; f != nil {
+		h.afterView = nil
+		f()
+	}
+	return err
+}
+
+func (f *Fixture) unspentIndex() *indexers.UnspentIndex {
+	if c, ok := f.FFLDB.(*blockchain.ChainStoreFFLDB); ok {
+		return c.UnspentIndexVerif()
+	}
+	return nil
+}
+
+// DropTxCache empties the in-memory transaction cache in front of the tx
+// index (what a node restart or a trim does): the next lookups are cache
+// misses.
+func (f *Fixture) DropTxCache() {
+	if usp := f.unspentIndex(); usp != nil {
+		for h := range usp.TxCache.KeysVerif() {
+			usp.TxCache.DeleteTxnVerif(h)
+		}
+	}
+}
+
+// AfterNextView arms a one-shot hook that runs right after the next database
+// view of the transaction store returned (i.e. in the middle of the next
+// cache-missing FetchTx / GetTransaction); nil disarms.
+func (f *Fixture) AfterNextView(fn func()) {
+	if f.hook != nil {
+		f.hook.afterView = fn
+	}
 }
 
 // Close releases the databases (and removes the directory New created).
